@@ -58,7 +58,7 @@ pub struct Case {
     pub via_cli: bool,
 }
 
-const NAMES: [&str; 8] = ["a.txt", "b.bin", "dir/c.txt", "deep/er/d.dat", "UPPER.TXT", "dots..name", "tilde~1", "plus+sign"];
+const NAMES: [&str; 9] = ["a.txt", "b.bin", "dir/c.txt", "deep/er/d.dat", "UPPER.TXT", "dots..name", "tilde~1", "plus+sign", "x/../resolved.txt"];
 const EXTRA_NAMES: [&str; 4] = ["x-ext", "zzz", "Aaa", "_custom"];
 /// names that are fields of some other role type: unrecognised where they are injected
 const EXTRA_NAMES_META_ROLES: [&str; 5] = ["targets", "delegations", "keys", "roles", "consistent_snapshot"]; // for timestamp / snapshot
@@ -452,8 +452,8 @@ fn small() -> impl Strategy<Value = Vec<(u8, u8)>> {
 fn forge_strategy() -> impl Strategy<Value = ForgeRepo> {
     (
         any::<bool>(),
-        prop::collection::vec((0u8..8, 0u16..3000), 0..6),
-        prop::collection::vec((0u8..4, prop::collection::vec((0u8..8, 0u16..3000), 0..4), prop::bool::weighted(0.2)), 0..4),
+        prop::collection::vec((0u8..9, 0u16..3000), 0..6),
+        prop::collection::vec((0u8..4, prop::collection::vec((0u8..9, 0u16..3000), 0..4), prop::bool::weighted(0.2)), 0..4),
         (small(), small(), small(), small()),
         any::<bool>(),
         any::<bool>(),
@@ -483,7 +483,7 @@ fn case_strategy() -> impl Strategy<Value = Case> {
 fn case_strategy_lib() -> impl Strategy<Value = Case> {
     (
         prop_oneof![3 => forge_strategy().prop_map(Base::Forged), 1 => edit::program(15).prop_map(Base::Edited)],
-        prop::collection::vec((0u8..8, 0u16..2000), 0..4),
+        prop::collection::vec((0u8..9, 0u16..2000), 0..4),
         [50u32..5000, 50u32..5000, 50u32..5000],
     )
         .prop_map(|(base, add, new_versions)| Case { base, add, new_versions, via_cli: false })
